@@ -13,18 +13,25 @@ theorem grantsL_append_notGranted (ws : List Waiter) (w : Waiter) (h : w.st ≠ 
     grantsL (ws ++ [w]) = grantsL ws := by
   simp [grantsL, List.countP_append, h]
 
-theorem tame_of_semEq (p q : Pool) (hv : q.sem.value = p.sem.value)
-    (hg : grantsL q.sem.waiters = grantsL p.sem.waiters) (ht : q.tasks = p.tasks)
-    (h1 : q.running = p.running := by rfl) (h2 : q.cancelledR = p.cancelledR := by rfl)
-    (h3 : q.ended = p.ended := by rfl) (h4 : q.lost = p.lost := by rfl) : Tame p q := by
-  refine ⟨hv, hg, by rw [ht], h1, h2, h3, h4, ?_⟩
-  intro t tk' h; rw [ht] at h; exact ⟨tk', h, rfl, Or.inl rfl⟩
-
-/-- queueing behind the pool semaphore moves no slot -/
-theorem tame_waitRoom (p : Pool) (m) : Tame p (p.waitRoom m) := by
-  unfold waitRoom
-  simp only
-  split <;> refine tame_of_semEq _ _ ?_ ?_ ?_ <;> simp_all [grantsL, List.countP_append, schedMeta]
+/-- queueing behind the pool semaphore moves no slot (it only happens when the semaphore is locked, which an
+unbounded semaphore without waiters never is) -/
+theorem good_waitRoom {cap : Cap} (p : Pool) (m) (hg : Good cap p) (hl : p.sem.locked = true) :
+    Good cap (p.waitRoom m) := by
+  have facts : (p.waitRoom m).sem.value = p.sem.value ∧ grantsL (p.waitRoom m).sem.waiters = grantsL p.sem.waiters ∧
+      (p.waitRoom m).tasks = p.tasks ∧ (p.waitRoom m).running = p.running ∧ (p.waitRoom m).cancelledR = p.cancelledR ∧
+      (p.waitRoom m).ended = p.ended ∧ (p.waitRoom m).lost = p.lost := by
+    unfold waitRoom
+    simp only
+    split <;> simp_all [grantsL, List.countP_append, schedMeta, emitRef, modReq]
+  obtain ⟨f1, f2, f3, f4, f5, f6, f7⟩ := facts
+  refine ⟨?_, fun i tk h hn => hg.phase i tk (by rw [← f3]; exact h) hn, hg.reg.of_eq f3 f4 f5 f6 f7⟩
+  cases cap with
+  | fin n =>
+    obtain ⟨v, hv, hs⟩ := hg.slot
+    exact ⟨v, by rw [f1]; exact hv, by rw [f2, f3]; exact hs⟩
+  | inf =>
+    obtain ⟨hv, hw⟩ := hg.slot
+    simp [Sem.locked, hv, hw, Cap.isZero] at hl
 
 theorem tame_waitMapSem (p : Pool) (m) : Tame p (p.waitMapSem m) := by
   unfold waitMapSem
@@ -40,15 +47,25 @@ theorem locked_false_pos (s : Sem) (v : Nat) (hv : s.value = .fin v) (h : s.lock
   · rw [hv] at h; simp [Cap.isZero] at h
   · exact hp
 
+/-- slot conservation just before a task is appended: one slot is already set aside for it -/
+def SlotPre (cap : Cap) (p : Pool) : Prop :=
+  match cap with
+  | .fin n => ∃ v, p.sem.value = .fin v ∧ v + (heldL p.tasks + 1) + grantsL p.sem.waiters = n
+  | .inf => p.sem.value = .inf ∧ p.sem.waiters = []
+
 /-- appending a fresh task in phase `created` -/
-theorem good_createTask_afterTake {cap : Nat} (p : Pool) (m : Nat) (isMap : Bool)
-    (hph : PhaseOK p) (hreg : RegOK p) (v : Nat) (hv : p.sem.value = .fin v)
-    (hs : v + (heldL p.tasks + 1) + grantsL p.sem.waiters = cap) : Good cap (p.createTask m isMap) := by
+theorem good_createTask_afterTake {cap : Cap} (p : Pool) (m : Nat) (isMap : Bool)
+    (hph : PhaseOK p) (hreg : RegOK p) (hpre : SlotPre cap p) : Good cap (p.createTask m isMap) := by
   unfold createTask
   simp only
-  refine ⟨⟨v, by simpa using hv, ?_⟩, ?_, hreg.create _ rfl _ rfl rfl rfl rfl rfl⟩
-  · simp only [emitRef_sem, emitRef_tasks, modReq_sem, modReq_tasks, heldL, List.countP_append] at *
-    simp [newTask]; omega
+  refine ⟨?_, ?_, hreg.create _ rfl _ rfl rfl rfl rfl rfl⟩
+  · cases cap with
+    | fin n =>
+      obtain ⟨v, hv, hs⟩ := hpre
+      refine ⟨v, by simpa using hv, ?_⟩
+      simp only [emitRef_sem, emitRef_tasks, modReq_sem, modReq_tasks, heldL, List.countP_append] at *
+      simp [newTask]; omega
+    | inf => exact hpre
   · intro i tk' h hn
     simp only [emitRef_tasks, modReq_tasks] at h
     rw [List.getElem?_append] at h
@@ -60,18 +77,23 @@ theorem good_createTask_afterTake {cap : Nat} (p : Pool) (m : Nat) (isMap : Bool
         rw [this] at h; simp at h; subst h; rfl
       · rw [List.getElem?_eq_none (by simpa using hge1)] at h; cases h
 
-theorem good_takeSlotAndCreate {cap : Nat} (p : Pool) (m : Nat) (isMap : Bool) (hg : Good cap p)
+theorem good_takeSlotAndCreate {cap : Cap} (p : Pool) (m : Nat) (isMap : Bool) (hg : Good cap p)
     (hl : p.sem.locked = false) : Good cap (p.takeSlotAndCreate m isMap) := by
   unfold takeSlotAndCreate
-  obtain ⟨v, hv, hs⟩ := hg.slot
-  have hpos := locked_false_pos p.sem v hv hl
   refine good_createTask_afterTake _ m isMap (fun i tk h hn => hg.phase i tk h hn)
-    (hg.reg.of_eq rfl rfl rfl rfl rfl) (v - 1) ?_ ?_
-  · simp [hv, Cap.dec]
-  · simp only; omega
+    (hg.reg.of_eq rfl rfl rfl rfl rfl) ?_
+  cases cap with
+  | fin n =>
+    obtain ⟨v, hv, hs⟩ := hg.slot
+    have hpos := locked_false_pos p.sem v hv hl
+    exact ⟨v - 1, by simp [hv, Cap.dec], by simp only; omega⟩
+  | inf =>
+    obtain ⟨hv, hw⟩ := hg.slot
+    show ({ p with sem := { p.sem with value := p.sem.value.dec } } : Pool).sem.value = .inf ∧ _
+    simp [hv, hw, Cap.dec]
 
 /-- `_apply_spawner`/`_start_num` from any position -/
-theorem good_applyLoop {cap : Nat} (m n : Nat) (p : Pool) (hg : Good cap p) : Good cap (applyLoop m n p) := by
+theorem good_applyLoop {cap : Cap} (m n : Nat) (p : Pool) (hg : Good cap p) : Good cap (applyLoop m n p) := by
   induction n generalizing p with
   | zero =>
     unfold applyLoop
@@ -87,16 +109,16 @@ theorem good_applyLoop {cap : Nat} (m n : Nat) (p : Pool) (hg : Good cap p) : Go
       · split
         · exact (tame_finishMeta _ m _).good hg0
         · split
-          · exact (tame_waitRoom _ m).good hg0
+          · rename_i hl; exact good_waitRoom _ m hg0 hl
           · rename_i hl
             exact ih _ (good_takeSlotAndCreate _ m false hg0 (by simpa using hl))
 
-theorem good_mapStartTask {cap : Nat} (p : Pool) (m : Nat) (hg : Good cap p) : Good cap (p.mapStartTask m).1 := by
+theorem good_mapStartTask {cap : Cap} (p : Pool) (m : Nat) (hg : Good cap p) : Good cap (p.mapStartTask m).1 := by
   unfold mapStartTask
   split
   · exact (tame_finishMeta p m _).good hg
   · split
-    · exact (tame_waitRoom p m).good hg
+    · rename_i hl; exact good_waitRoom p m hg hl
     · rename_i hl
       exact good_takeSlotAndCreate p m true hg (by simpa using hl)
 
@@ -106,7 +128,7 @@ theorem tame_pullItem (p : Pool) (m rest) : Tame p (p.pullItem m rest) := by
   exact Tame.trans (Tame.trans (tame_modReq p m _) (tame_logEv _ _)) (tame_runHooks _ m _)
 
 /-- `_arg_consumer` from any position, argument iterator (user code) included -/
-theorem good_mapLoop {cap : Nat} (m : Nat) (items : List Item) (p : Pool) (hg : Good cap p) :
+theorem good_mapLoop {cap : Cap} (m : Nat) (items : List Item) (p : Pool) (hg : Good cap p) :
     Good cap (mapLoop m items p) := by
   induction items generalizing p with
   | nil =>
@@ -126,7 +148,7 @@ theorem good_mapLoop {cap : Nat} (m : Nat) (items : List Item) (p : Pool) (hg : 
         · exact ih _ hg2
         · exact hg2
 
-theorem good_continueSpawner {cap : Nat} (p : Pool) (m : Nat) (hg : Good cap p) : Good cap (p.continueSpawner m) := by
+theorem good_continueSpawner {cap : Cap} (p : Pool) (m : Nat) (hg : Good cap p) : Good cap (p.continueSpawner m) := by
   unfold continueSpawner
   simp only
   split
